@@ -100,8 +100,13 @@ const IOSQE_IO_LINK: u8 = 1 << 2;
 
 impl RawRing {
     pub fn new(entries: u32) -> Option<RawRing> {
+        Self::with_flags(entries, 0, 0)
+    }
+    pub fn with_flags(entries: u32, flags: u32, sq_thread_idle: u32) -> Option<RawRing> {
         unsafe {
             let mut p = Params::default();
+            p.flags = flags;
+            p.sq_thread_idle = sq_thread_idle;
             let fd = libc::syscall(libc::SYS_io_uring_setup, entries, &mut p as *mut Params) as i32;
             if fd < 0 {
                 return None;
@@ -147,8 +152,14 @@ impl RawRing {
             }
             self.atomic(self.p.sq_off.tail).store(self.tail, Release);
             let n = sqes.len() as u32;
-            let r = libc::syscall(libc::SYS_io_uring_enter, self.fd, n, n, 1u32 /* GETEVENTS */, 0usize, 0usize);
+            let n_wait = if n == 0 { 1 } else { n };
+            // GETEVENTS, plus SQ_WAKEUP on an SQPOLL ring (harmless when the thread is awake)
+            let fl: u32 = if self.p.flags & 2 != 0 { 1 | 2 } else { 1 };
+            let r = libc::syscall(libc::SYS_io_uring_enter, self.fd, n, n_wait, fl, 0usize, 0usize);
             if r != n as i64 {
+                if std::env::var("H_URING_DEBUG").is_ok() {
+                    eprintln!("raw enter = {r} errno {}", *libc::__errno_location());
+                }
                 return None;
             }
             let mut out = Vec::new();
@@ -248,4 +259,37 @@ pub fn probe_link_breaks() -> Option<Vec<LinkProbe>> {
     }
     let _ = (&mut buf, &mut stx);
     Some(out)
+}
+
+/// Kernel behaviour probe (raw ring, no wrapper): on an SQPOLL ring, submit a relative 1 ms
+/// timeout together with an absolute timeout that is already in the past; returns the smallest
+/// time (ns) in which BOTH completed over `tries` attempts, with their results.
+pub fn sqpoll_timeout_pair_probe(flags: u32, tries: usize) -> Option<(u128, Vec<i32>)> {
+    let mut ring = RawRing::with_flags(4, flags, 20)?;
+    let mut best: Option<(u128, Vec<i32>)> = None;
+    for _ in 0..tries {
+        let rel: [i64; 2] = [0, 1_000_000];
+        let mut now: libc::timespec = unsafe { std::mem::zeroed() };
+        unsafe { libc::clock_gettime(libc::CLOCK_MONOTONIC, &mut now) };
+        let abs: [i64; 2] = [now.tv_sec, now.tv_nsec];
+        let a = RawSqe { opcode: OP_TIMEOUT, addr: rel.as_ptr() as u64, len: 1, user_data: 1, ..Default::default() };
+        let b = RawSqe { opcode: OP_TIMEOUT, addr: abs.as_ptr() as u64, len: 1, op_flags: 1 /* IORING_TIMEOUT_ABS */, user_data: 2, ..Default::default() };
+        let t0 = std::time::Instant::now();
+        let mut got = ring.run(&[a, b])?;
+        let mut calls = 1;
+        while got.len() < 2 && calls < 4 {
+            // the wait was cut short (a timeout fired while waiting): wait again for the rest
+            got.extend(ring.run(&[])?);
+            calls += 1;
+        }
+        let dt = t0.elapsed().as_nanos();
+        if std::env::var("H_URING_DEBUG").is_ok() {
+            eprintln!("raw flags {flags:#x}: {dt} ns {got:?}");
+        }
+        let res: Vec<i32> = got.iter().map(|x| x.1).collect();
+        if got.len() == 2 && best.as_ref().map(|b| dt < b.0).unwrap_or(true) {
+            best = Some((dt, res));
+        }
+    }
+    best
 }
